@@ -456,7 +456,7 @@ func c16Run(c *engine.Ctx) {
 			}
 		}
 	}
-	for _, h := range c16Hosts() {
+	for hi, h := range c16Hosts() {
 		h := h
 		st := universe.ByName(h.st)
 		// single-item positions
@@ -601,6 +601,41 @@ func c16Run(c *engine.Ctx) {
 				ev.Field(f.Index).Set(reflect.ValueOf(col))
 			}
 		}
+		// every list of 4..6 entries over {iri-a, *obj-a, iri-b, iri-c} in `to` (for the first host: 4..7, and 4..6 in the other four lists as well):
+		// several repetitions, runs of them, survivors before, between and after - what a compaction in place can get wrong
+		{
+			c16IDc := "https://example.com/c"
+			deep := []c16Entry{entries[0], entries[2], entries[1], {name: "iri-c", ident: c16IDc, want: "iri:" + c16IDc, mk: func() ap.Item { return ap.IRI(c16IDc) }}}
+			poss := []string{"To"}
+			if hi == 0 {
+				poss = c16Lists
+			}
+			for _, pos := range poss {
+				f := *st.Field(pos)
+				var rec func(cur []int)
+				rec = func(cur []int) {
+					if len(cur) >= 4 {
+						es := make([]c16Entry, len(cur))
+						names := make([]string, len(cur))
+						for i, x := range cur {
+							es[i], names[i] = deep[x], deep[x].name
+						}
+						class := "C16|" + h.name + "|" + f.Term
+						c.Do(class, func() string { return fmt.Sprintf("%s with %s = [%s]", h.name, f.Term, strings.Join(names, ", ")) }, func(t *engine.T) {
+							t.Distinct(true)
+							c16Check(t, h, f.Term, setList(f, es), judgeList(f, es, fmt.Sprintf("deep=%d", len(es))))
+						})
+					}
+					if len(cur) == 6 && !(hi == 0 && pos == "To") || len(cur) == 7 {
+						return
+					}
+					for x := range deep {
+						rec(append(append([]int{}, cur...), x))
+					}
+				}
+				rec(nil)
+			}
+		}
 		// long addressing lists: N members of pairwise distinct ids in rotating shapes, three of them without an id
 		for _, pos := range c16Lists {
 			f := *st.Field(pos)
@@ -619,7 +654,14 @@ func c16Run(c *engine.Ctx) {
 		// two different ids that collide under a common 32-bit hash, in one addressing list (as IRI and as embedded object)
 		for _, pos := range c16Lists {
 			f := *st.Field(pos)
-			for k, pr := range universe.CollidingIDs() {
+			near := append([][2]ap.IRI{}, universe.CollidingIDs()...)
+			// ... and ids with a fragment that differ only in the byte before it, after 2-, 3- and 4-byte characters, or only in one
+			// character that a fold done with bit tricks identifies
+			near = append(near, [2]ap.IRI{"https://example.com/\u00e91#main", "https://example.com/\u00e92#main"},
+				[2]ap.IRI{"https://example.com/\u65e5\u672c\u8a9e/1#k", "https://example.com/\u65e5\u672c\u8a9e/2#k"},
+				[2]ap.IRI{"https://example.com/\U0001f600a#x", "https://example.com/\U0001f600b#x"},
+				[2]ap.IRI{"https://example.com/u/@x", "https://example.com/u/`x"}, [2]ap.IRI{"https://example.com/u/a_b", "https://example.com/u/a\x7fb"})
+			for k, pr := range near {
 				k, pr := k, pr
 				es := []c16Entry{
 					{name: "iri-x", ident: string(pr[0]), want: "iri:" + string(pr[0]), mk: func() ap.Item { return pr[0] }},
